@@ -120,7 +120,11 @@ pub fn make_config(cfg: &WorldCfg) -> Config {
         ta_signer_enabled: false,
         pid_file: Some(PathBuf::from("krill.pid")),
         service_uri: None,
-        log_level: log::LevelFilter::Off,
+        log_level: if std::env::var("VERIF_LOG").is_ok() {
+            log::LevelFilter::Debug
+        } else {
+            log::LevelFilter::Off
+        },
         log_type: LogType::Stderr,
         log_file: None,
         syslog_facility: ConfigDefaults::syslog_facility(),
@@ -166,6 +170,9 @@ pub fn make_config(cfg: &WorldCfg) -> Config {
         ta_timing: cfg.ta_timing,
     };
     res.process().expect("config process");
+    if std::env::var("VERIF_LOG").is_ok() {
+        let _ = res.init_logging();
+    }
     res
 }
 
